@@ -328,7 +328,13 @@ func (h *Hist) NodeByKey(s snap.Snapshot, key string) *Node {
 
 // F reads a (possibly nested, dot separated) field of a decoded value through reflection; pointers and
 // interfaces are followed. Returns the zero Value when the path does not exist.
-func F(v interface{}, path string) reflect.Value {
+func F(v interface{}, path string) (out reflect.Value) {
+	defer func() {
+		// FieldByName through a nil embedded pointer panics: treat as "field absent"
+		if e := recover(); e != nil {
+			out = reflect.Value{}
+		}
+	}()
 	rv := reflect.ValueOf(v)
 	// version-wrapped entities (entitywrapper.Wrapper): look at the wrapped entity
 	if rv.IsValid() && rv.Kind() == reflect.Ptr && !rv.IsNil() {
